@@ -90,10 +90,20 @@ def stream_arg(name, args):
 def tokens(events, calls=()):
     """flat token list of a path's events; `calls` names the non-stdio calls that are kept as markers"""
     out = []
-    for e in events:
+    for k_, e in enumerate(events):
         if e.kind != 'call' or e.inlined:
             continue
-        t = tokens_of_call(e.name, e.args, e)
+        t = None
+        if e.name == 'vfprintf' and len(e.args) > 1 and e.args[1][0] == 'str':
+            # a printf-like helper analysed as part of its caller: vfprintf(fp, fmt, ap) inside helper(..., fmt, ...) writes what
+            # fprintf(fp, fmt, <the arguments behind fmt in the helper's call>) writes
+            for h in reversed(events[:k_]):
+                if h.kind == 'call' and h.inlined and h.name == getattr(e, 'fn', None) and e.args[1] in list(h.args):
+                    j = list(h.args).index(e.args[1])
+                    t = tokens_of_call('fprintf', [e.args[0], e.args[1]] + list(h.args[j + 1:]), e)
+                    break
+        if t is None:
+            t = tokens_of_call(e.name, e.args, e)
         if t is not None:
             out.extend(t)
         elif e.name in calls or (e.name.startswith('indirect:') and 'indirect:' in calls):
